@@ -9,8 +9,8 @@
 #define _GNU_SOURCE
 #include "vh.h"
 
-enum { W_OBJ_BEGIN = 0, W_OBJ_END, W_ARR_BEGIN, W_ARR_END, W_BOOL, W_INT, W_DOUBLE, W_STRING, W_STRING_LEN, W_NAME, W_NAME_LEN, W_BYTES, W_RAW, W_RAW_NULL, W_PTW_SCALAR, W_PTW_CONT, W_NOPS };
-static const char *WNAME[] = { "object_begin", "object_end", "array_begin", "array_end", "boolean", "integer", "double", "string", "string_with_len", "name", "name_with_len", "bytes", "raw", "raw(NULL)", "parser_to_writer(on a scalar)", "parser_to_writer(on a container)" };
+enum { W_OBJ_BEGIN = 0, W_OBJ_END, W_ARR_BEGIN, W_ARR_END, W_BOOL, W_INT, W_DOUBLE, W_STRING, W_STRING_LEN, W_NAME, W_NAME_LEN, W_BYTES, W_RAW, W_RAW_NULL, W_PTW_SCALAR, W_PTW_CONT, W_QUERY, W_NOPS };
+static const char *WNAME[] = { "object_begin", "object_end", "array_begin", "array_end", "boolean", "integer", "double", "string", "string_with_len", "name", "name_with_len", "bytes", "raw", "raw(NULL)", "parser_to_writer(on a scalar)", "parser_to_writer(on a container)", "writer_verify+get_counter(query)" };
 
 typedef struct {
     int op; bool b; int64_t i; uint64_t dbits;
@@ -54,6 +54,7 @@ static void call_model(wcall *c, vbuf *full)
     case W_RAW: vb_put(full, c->data, c->len); break;
     case W_RAW_NULL: c->npieces = 0; return;
     case W_PTW_SCALAR: c->npieces = 0; return;                       /* returns false and changes nothing */
+    case W_QUERY: c->npieces = 0; return;                            /* queries change nothing */
     case W_PTW_CONT: vb_put(full, PTW_DOC + 4, 7); break;            /* appends exactly the container's bytes */
     }
     c->piece[0] = full->n - before;
@@ -79,6 +80,7 @@ static bool call_exec(binson_writer *w, const wcall *c)
     case W_RAW_NULL: return binson_write_raw(w, NULL, c->len);
     case W_PTW_SCALAR: return ptw_exec(w, false);
     case W_PTW_CONT: return ptw_exec(w, true);
+    case W_QUERY: return false;                                      /* executed by run_list, which knows whether the backing store is large enough */
     }
     return false;
 }
@@ -99,7 +101,7 @@ static void describe_calls(const wcall *calls, int n, vbuf *o)
 static void random_call(vrng *r, wcall *c, bool allow_null, bool allow_big)
 {
     memset(c, 0, sizeof *c);
-    static const uint8_t w[W_NOPS] = { 8, 8, 6, 6, 5, 14, 5, 6, 8, 5, 6, 10, 6, 0, 3, 4 };
+    static const uint8_t w[W_NOPS] = { 8, 8, 6, 6, 5, 14, 5, 6, 8, 5, 6, 10, 6, 0, 3, 4, 3 };
     uint32_t sum = 0; for (int i = 0; i < W_NOPS; i++) sum += w[i];
     uint32_t x = vrn(r, sum); int op = 0; while (x >= w[op]) { x -= w[op]; op++; }
     if (allow_null && vrn(r, 25) == 0) op = W_RAW_NULL;
@@ -124,8 +126,11 @@ static bool run_list(wcall *calls, int n, const vbuf *full, size_t cap, int form
 {
     (void)pre_used;
     uint8_t *dst; bool canary = (form == 1 || cap == 0);
+    /* canary form: the backing store reaches past the whole encoding, so that binson_writer_verify on an overflowed writer
+     * (which parses `counter` bytes) stays inside memory the harness owns; everything past `cap` must keep its pattern */
+    size_t tail = 64 + (full->n > cap ? full->n - cap : 0);
     if (given_dst) dst = given_dst;
-    else if (canary) { dst = (uint8_t *)malloc(cap + 64); memset(dst + cap, 0xEE, 64); }
+    else if (canary) { dst = (uint8_t *)malloc(cap + tail); memset(dst + cap, 0xEE, tail); }
     else dst = vg_exact(cap);
     memset(dst, 0xA7, cap);
     bool ok = true;
@@ -144,6 +149,14 @@ static bool run_list(wcall *calls, int n, const vbuf *full, size_t cap, int form
             if (!failed && stored + c->piece[k] <= cap && stored + c->piece[k] >= stored) stored += c->piece[k];
             else failed = true;
             counter += c->piece[k];
+        }
+        if (c->op == W_QUERY) {
+            /* queries between writes: nothing may change (writer_verify only where the backing store covers the counter) */
+            size_t c0 = binson_writer_get_counter(w); binson_err e0 = w->error_flags;
+            if (canary && !given_dst) (void)binson_writer_verify(w);
+            (void)binson_writer_get_counter(w);
+            if (binson_writer_get_counter(w) != c0 || w->error_flags != e0) { snprintf(sig, sizeof sig, "%s:query-changed-writer", sigp); snprintf(what, sizeof what, "binson_writer_verify/get_counter changed the writer: counter %zu -> %zu, error %s -> %s", c0, binson_writer_get_counter(w), verr_name((int)e0), verr_name((int)w->error_flags)); ok = false; }
+            continue;
         }
         bool ret = call_exec(w, c);
         size_t cnt = binson_writer_get_counter(w);
@@ -164,7 +177,12 @@ static bool run_list(wcall *calls, int n, const vbuf *full, size_t cap, int form
         for (size_t k = stored; ok && k < cap; k++) if (dst[k] != 0xA7) { snprintf(sig, sizeof sig, "%s:store-beyond-prefix", sigp); snprintf(what, sizeof what, "byte %zu beyond the stored prefix (%zu) was modified", k, stored); ok = false; }
         if (ok && (counter > cap) != (w->error_flags == BINSON_ERROR_RANGE) && !nullerr) { snprintf(sig, sizeof sig, "%s:range-iff", sigp); snprintf(what, sizeof what, "total %zu, capacity %zu, error_flags=%s", counter, cap, verr_name((int)w->error_flags)); ok = false; }
     }
-    if (canary && !given_dst) for (int k = 0; k < 64; k++) if (dst[cap + (size_t)k] != 0xEE) { snprintf(sig, sizeof sig, "%s:overrun", sigp); snprintf(what, sizeof what, "byte %d past the capacity %zu was overwritten", k, cap); ok = false; break; }
+    if (ok && !given_dst) {
+        /* reset is a writer call too: it must not store outside the first `cap` bytes either */
+        (void)binson_writer_reset(w);
+        if (cap >= 2 && (binson_writer_get_counter(w) != 0 || w->error_flags != BINSON_ERROR_NONE)) { snprintf(sig, sizeof sig, "%s:reset-not-clean", sigp); snprintf(what, sizeof what, "after binson_writer_reset the counter is %zu and error_flags=%s", binson_writer_get_counter(w), verr_name((int)w->error_flags)); ok = false; }
+    }
+    if (canary && !given_dst) for (size_t k = 0; k < tail; k++) if (dst[cap + k] != 0xEE) { snprintf(sig, sizeof sig, "%s:overrun", sigp); snprintf(what, sizeof what, "byte %zu past the capacity %zu was overwritten", k, cap); ok = false; break; }
     if (!ok) {
         vbuf d; memset(&d, 0, sizeof d);
         vb_printf(&d, "%s\ncapacity=%zu exact encoded size=%zu\ncalls: ", what, cap, full->n);
@@ -224,7 +242,7 @@ static void case_c12w(vrng *r)
     binson_writer *w = (binson_writer *)malloc(sizeof(binson_writer));
     memset(w, 0x77, sizeof *w);
     uint8_t *dA = (uint8_t *)malloc(capA + 64), *dB = (uint8_t *)malloc(capB + 64);
-    memset(dA, 0xA7, capA + 64); memset(dB, 0xEE, capB + 64);
+    memset(dA, 0xA7, capA); memset(dA + capA, 0xEE, 64); memset(dB, 0xEE, capB + 64);
     binson_writer_init(w, dA, capA);
     for (int i = 0; i < na; i++) call_exec(w, &a[i]);       /* phase A: arbitrary use, possibly failed */
     binson_err errA = w->error_flags; size_t cntA = binson_writer_get_counter(w);
@@ -239,6 +257,7 @@ static void case_c12w(vrng *r)
         if (capA < 2) { if (rr) vw_violation("c12w:reset-small", "binson_writer_reset returned true on a capacity below 2"); clean = false; vw_count("reset_refused_small", 1); }
         else if (!rr) { vw_violation("c12w:reset-failed", "binson_writer_reset returned false on a writer with a valid buffer of capacity >= 2"); clean = false; }
     }
+    for (int k = 0; k < 64; k++) if (dA[capA + (size_t)k] != 0xEE) { vw_violation("c12w:overrun-by-restart", "bytes past the capacity %zu were modified by the previous use or by %s", capA, hown); clean = false; break; }
     if (clean) {
         if (binson_writer_get_counter(w) != 0 || w->error_flags != BINSON_ERROR_NONE) {
             char sig[100], what[300];
